@@ -448,7 +448,8 @@ def job_sig(job):
     elif kind == 'rank':
         sig.update(solver=job['solver'])
     elif kind == 'metric':
-        sig.update(metric=job['name'])
+        sig.update(metric=job['name'],
+                   true_label_without_prediction=any(a >= 0 > b for a, b in zip(job['t'], job['p'])))
     return sig
 
 
